@@ -1285,8 +1285,8 @@ def selftest():
 
 def jobs(tier, seed):
     q = tier == 'quick'
-    plan = {'history': (8, 30) if q else (10, 500), 'env': (2, 60) if q else (2, 1000),
-            'entities': (3, 60) if q else (2, 1000), 'threads': (3, 30) if q else (2, 400)}
+    plan = {'history': (8, 30) if q else (10, 350), 'env': (2, 60) if q else (2, 1000),
+            'entities': (3, 60) if q else (2, 1000), 'threads': (3, 30) if q else (2, 300)}
     out = []
     for chk, (shards, n) in plan.items():
         for i in range(shards):
